@@ -1,6 +1,7 @@
 package main
 
 import (
+	"os"
 	"fmt"
 	"go/constant"
 	"go/token"
@@ -430,6 +431,13 @@ func (e *vpassEngine) untrustedDep(v ssa.Value, fn *ssa.Function, cfg vpassCfg, 
 		}
 		return false
 	}
+	// a parameter handed on as a whole (possibly through the cell it was spilled into because a closure captures
+	// it): its trust is that of the parameter, whatever else shares memory with it
+	if pm := paramRoot(v); pm != nil && pm.Parent() == top {
+		if _, isPtr := v.(*ssa.Parameter); isPtr || true {
+			return cfg.untrusted[paramIndex(pm)]
+		}
+	}
 	return dependsOnParams(v, top, cfg.untrusted, stop)
 }
 
@@ -675,6 +683,12 @@ func (e *vpassEngine) Analyze(fn *ssa.Function, cfg vpassCfg, depth int) *vpassR
 				}
 			}
 			sub := e.Analyze(callee, ccfg, depth+1)
+			if os.Getenv("GNARKLINT_DEBUG") == "lift" {
+				fmt.Printf("  lift %s -> %s: %d events, cfg untrusted=%v lenTrusted=%v fixedIn=%v\n", funcBaseName(fn), funcBaseName(callee), len(sub.events), ccfg.untrusted, ccfg.lenTrusted, ccfg.fixedIn)
+				for _, se := range sub.events {
+					fmt.Printf("     %s %s %s\n", se.Status, se.Kind, se.Key[:min(len(se.Key), 80)])
+				}
+			}
 			for _, se := range sub.events {
 				if se.Status == "optional" {
 					continue
@@ -779,6 +793,18 @@ func (e *vpassEngine) describe(ev *Event, org ssa.Value, cfg vpassCfg) {
 		for c := range s.calls {
 			if _, isB := c.Call.Value.(*ssa.Builtin); !isB && isSentCall(c) {
 				cs = append(cs, CalleeName(&c.Call))
+			}
+		}
+		if len(cs) == 0 {
+			// the sender is a goroutine started as a named function (go f(..., ch)): describe what it sends in the
+			// caller's terms
+			if u, ok := org.(*ssa.UnOp); ok && u.Op == token.ARROW {
+				ncs, deps, direct := namedSenders(u.X)
+				cs = ncs
+				ev.Deps = uniq(append(ev.Deps, deps...))
+				ev.Direct = uniq(append(ev.Direct, direct...))
+				sort.Strings(ev.Deps)
+				sort.Strings(ev.Direct)
 			}
 		}
 		sort.Strings(cs)
@@ -954,6 +980,32 @@ func sendersOf(ch ssa.Value) []string {
 				if s, ok := ins.(*ssa.Send); ok && chanCell(s.Chan) == cell {
 					out = append(out, Desc(s.X))
 				}
+				// the sending goroutine body as a named function: go f(..., ch): sends on the parameter, described
+				// in the caller's terms
+				if ci, ok := ins.(ssa.CallInstruction); ok {
+					cal := ci.Common().StaticCallee()
+					if cal == nil || cal.Blocks == nil || FuncPkg(cal) == nil || !inModule(FuncPkg(cal).Path()) {
+						continue
+					}
+					var argDescs []string
+					pi := -1
+					for i, a := range ci.Common().Args {
+						argDescs = append(argDescs, Desc(a))
+						if chanCell(a) == cell {
+							pi = i
+						}
+					}
+					if pi < 0 || pi >= len(cal.Params) {
+						continue
+					}
+					for _, cb := range cal.Blocks {
+						for _, cins := range cb.Instrs {
+							if s, ok := cins.(*ssa.Send); ok && s.Chan == ssa.Value(cal.Params[pi]) {
+								out = append(out, substKey(Desc(s.X), argDescs))
+							}
+						}
+					}
+				}
 			}
 		}
 		for _, a := range f.AnonFuncs {
@@ -1078,4 +1130,62 @@ func unspillReturn(rv ssa.Value, b *ssa.BasicBlock) ssa.Value {
 		blk = blk.Preds[0]
 	}
 	return rv
+}
+
+// namedSenders: for a channel handed to `go f(..., ch)` (f a module function): the callees whose results f sends on
+// the parameter, and the dependencies of the sent values with f's parameters replaced by the call's arguments.
+func namedSenders(ch ssa.Value) (callees, deps, direct []string) {
+	cell := chanCell(ch)
+	if cell == nil {
+		return
+	}
+	ci0, ok := cell.(ssa.Instruction)
+	if !ok || ci0.Parent() == nil {
+		return
+	}
+	var walk func(f *ssa.Function)
+	walk = func(f *ssa.Function) {
+		for _, b := range f.Blocks {
+			for _, ins := range b.Instrs {
+				ci, ok := ins.(ssa.CallInstruction)
+				if !ok {
+					continue
+				}
+				cal := ci.Common().StaticCallee()
+				if cal == nil || cal.Blocks == nil || FuncPkg(cal) == nil || !inModule(FuncPkg(cal).Path()) {
+					continue
+				}
+				pi := -1
+				for i, a := range ci.Common().Args {
+					if chanCell(a) == cell {
+						pi = i
+					}
+				}
+				if pi < 0 || pi >= len(cal.Params) {
+					continue
+				}
+				for _, cb := range cal.Blocks {
+					for _, cins := range cb.Instrs {
+						s, ok := cins.(*ssa.Send)
+						if !ok || s.Chan != ssa.Value(cal.Params[pi]) {
+							continue
+						}
+						sl := SliceOf(s.X)
+						for c := range sl.calls {
+							if _, isB := c.Call.Value.(*ssa.Builtin); !isB && isSentCall(c) {
+								callees = append(callees, CalleeName(&c.Call))
+							}
+						}
+						deps = append(deps, substDeps(depsOf(s.X), ci.Common().Args, false)...)
+						direct = append(direct, substDeps(depsOfM(true, s.X), ci.Common().Args, true)...)
+					}
+				}
+			}
+		}
+		for _, a := range f.AnonFuncs {
+			walk(a)
+		}
+	}
+	walk(ci0.Parent())
+	return
 }
